@@ -25,7 +25,7 @@ var purePkgs = []string{
 
 // results of these are arbitrary (not functions of the arguments) but the heap is untouched.
 var nondetFns = map[string]bool{
-	"time.Now": true, "math/rand.Intn": true, "math/rand.Int63n": true, "math/rand.Int": true, "math/rand.Int63": true,
+	"math/rand.Intn": true, "math/rand.Int63n": true, "math/rand.Int": true, "math/rand.Int63": true,
 	"math/rand.Float64": true, "math/rand.Perm": true, "math/rand.Int31n": true, "time.Since": true, "time.Sleep": true,
 	"(*math/rand.Rand).Intn": true, "(*math/rand.Rand).Int63n": true, "(*math/rand.Rand).Perm": true,
 }
@@ -87,6 +87,10 @@ func (s *Session) call(fr *Frame, cc *ssa.CallCommon, st *State, instr *ssa.Call
 	}
 	if nt, ok := cc.Value.Type().(*types.Named); ok && nt.Obj().Pkg() != nil && (hasPrefixAny(nt.Obj().Pkg().Path(), purePkgs) || hasPrefixAny(nt.Obj().Pkg().Path(), noEffectPkgs)) {
 		return s.freshResult(st, resT, "fnval")
+	}
+	if cc.Signature().Params().Len() == 0 && noRefs(resT) {
+		s.note("call through a parameterless function value (configuration getter) in %s: assumed to have no effect, result arbitrary", fr.fn.String())
+		return s.freshResult(st, resT, "getter")
 	}
 	s.note("call through unknown function value in %s: heap havocked", fr.fn.String())
 	s.havocAll(st)
@@ -275,7 +279,10 @@ func (s *Session) invoke(fr *Frame, cc *ssa.CallCommon, recv Val, args []Val, st
 			return s.applyContract(fr, c, nil, cc.Signature(), append([]Val{recv}, args...), st)
 		}
 	}
-	if m.Pkg() != nil && hasPrefixAny(m.Pkg().Path(), noEffectPkgs) {
+	if m.Pkg() != nil && (hasPrefixAny(m.Pkg().Path(), noEffectPkgs) || m.Pkg().Path() == etcdPkg || m.Pkg().Path() == "context") {
+		if m.Pkg().Path() == etcdPkg {
+			s.note("etcd client call %s: no effect on modelled state, arbitrary result", full)
+		}
 		return s.freshResult(st, res, m.Name())
 	}
 	if full == "(error).Error" {
@@ -371,6 +378,16 @@ func (s *Session) applyContract(fr *Frame, c *Contract, fn *ssa.Function, sig *t
 		s.assume(Imp(st.Reach, And(s.rangeFacts(vals[i]), s.refFacts(st, vals[i]))))
 	}
 	bindResults(env, sig, vals)
+	if ev := c.Options["event"]; ev != "" {
+		// ghost event clock: this call is event `ev`
+		clk := s.ghostGet(st, "evclock")
+		now := Add(Select(clk, I(0)), I(1))
+		s.ghostSet(st, "evclock", Store(clk, I(0), now))
+		s.ghostSet(st, "evlast", Store(s.ghostGet(st, "evlast"), s.strLit(ev), now))
+		if len(vals) == 1 && len(vals[0].L) == 1 && vals[0].L[0].Sort == SBool {
+			s.ghostSet(st, "evres", Store(s.ghostGet(st, "evres"), s.strLit(ev), Ite(vals[0].L[0], I(1), I(0))))
+		}
+	}
 	se2 := &SpecEnv{sess: s, pkg: pkgT, vars: env, st: st, old: old}
 	for _, en := range c.Ensures {
 		f := s.evalBool(se2, en.E)
@@ -452,6 +469,24 @@ func (s *Session) itemLocs(se *SpecEnv, item string) ([]modLoc, error) {
 		se.st.Sorts["X:"+name] = ghostSort(vs)
 		return []modLoc{{heap: "X:" + name, sort: ghostSort(vs), whole: true}}, nil
 	}
+	if strings.HasPrefix(item, "all ") {
+		// all T.field : the field of every object of struct type T
+		tf := strings.TrimSpace(strings.TrimPrefix(item, "all "))
+		i := strings.LastIndex(tf, ".")
+		if i < 0 {
+			return nil, fmt.Errorf("bad item %q", item)
+		}
+		tt := s.resolveType(se.pkg, tf[:i])
+		var out []modLoc
+		for _, l := range shape(tt) {
+			if l.Path == "."+tf[i+1:] || strings.HasPrefix(l.Path, "."+tf[i+1:]+".") || strings.HasPrefix(l.Path, "."+tf[i+1:]+"#") || strings.HasPrefix(l.Path, "."+tf[i+1:]+"[") {
+				name := heapName("F", typeKey(tt), l.Path)
+				se.st.Sorts[name] = arrSort(l.Sort)
+				out = append(out, modLoc{heap: name, sort: arrSort(l.Sort), whole: true})
+			}
+		}
+		return out, nil
+	}
 	if strings.HasPrefix(item, "heap ") {
 		// raw heap family: heap F:pkg.T:.field
 		name := strings.TrimSpace(strings.TrimPrefix(item, "heap "))
@@ -517,6 +552,7 @@ func (s *Session) itemLocs(se *SpecEnv, item string) ([]modLoc, error) {
 func (s *Session) modScan(fr *Frame, blocks map[*ssa.BasicBlock]bool) (map[string]string, bool) {
 	mods := map[string]string{}
 	s.scanReal = map[string]bool{}
+	s.scanRoots = map[string][]T{}
 	s.scanBlocks = blocks
 	visited := map[*ssa.Function]bool{}
 	all := false
@@ -597,9 +633,20 @@ func (s *Session) scanInstrs(fr *Frame, instrs []ssa.Instruction, mods map[strin
 			tmp := map[string]string{}
 			addLeaves(tmp, k, tk, p, x.Val.Type(), n)
 			fresh := s.rootIsFreshAlloc(x.Addr, depth)
+			var rootRef *T
+			if !fresh && depth == 0 && fr != nil {
+				if a := rootAlloc(x.Addr); a != nil {
+					if v, ok := fr.vals[a]; ok && v.Loc != nil && v.Loc.Path == "" && len(v.Loc.Idx) == 0 {
+						r := v.Loc.Ref
+						rootRef = &r
+					}
+				}
+			}
 			for name, sort := range tmp {
 				mods[name] = sort
-				if !fresh {
+				if rootRef != nil {
+					s.scanRoots[name] = append(s.scanRoots[name], *rootRef)
+				} else if !fresh {
 					s.scanReal[name] = true
 				}
 			}
@@ -683,7 +730,7 @@ func (s *Session) scanCall(fr *Frame, cc *ssa.CallCommon, mods map[string]string
 				return r
 			}
 		}
-		if m.Pkg() != nil && hasPrefixAny(m.Pkg().Path(), noEffectPkgs) {
+		if m.Pkg() != nil && (hasPrefixAny(m.Pkg().Path(), noEffectPkgs) || m.Pkg().Path() == etcdPkg || m.Pkg().Path() == "context") {
 			return false
 		}
 		if m.FullName() == "(error).Error" {
@@ -731,6 +778,9 @@ func (s *Session) scanCall(fr *Frame, cc *ssa.CallCommon, mods map[string]string
 			}
 		}
 		if fn == nil {
+			if cc.Signature().Params().Len() == 0 && noRefs(cc.Signature().Results()) {
+				return false
+			}
 			return true
 		}
 	}
@@ -798,6 +848,11 @@ func (s *Session) scanContractMods(c *Contract, fn *ssa.Function, sig *types.Sig
 	for i := 0; i < sig.Params().Len(); i++ {
 		ptypes[names[k+i]] = sig.Params().At(i).Type()
 	}
+	if c.Options["event"] != "" {
+		for _, n := range []string{"evclock", "evlast", "evres"} {
+			mods["X:"+n] = arrSort(SInt)
+		}
+	}
 	for _, it := range c.Modifies {
 		if it == "*" {
 			return true
@@ -814,6 +869,20 @@ func (s *Session) scanContractMods(c *Contract, fn *ssa.Function, sig *types.Sig
 				vs = etcdGhosts[name]
 			}
 			mods["X:"+name] = ghostSort(vs)
+			continue
+		}
+		if strings.HasPrefix(it, "all ") {
+			tf := strings.TrimSpace(strings.TrimPrefix(it, "all "))
+			i := strings.LastIndex(tf, ".")
+			func() {
+				defer func() { recover() }()
+				tt := s.resolveType(s.eng.typesPkg(c.Pkg), tf[:i])
+				for _, l := range shape(tt) {
+					if l.Path == "."+tf[i+1:] || strings.HasPrefix(l.Path, "."+tf[i+1:]+".") || strings.HasPrefix(l.Path, "."+tf[i+1:]+"#") || strings.HasPrefix(l.Path, "."+tf[i+1:]+"[") {
+						mods[heapName("F", typeKey(tt), l.Path)] = arrSort(l.Sort)
+					}
+				}
+			}()
 			continue
 		}
 		item := it
@@ -985,6 +1054,25 @@ func (s *Session) callSiteAsserts(fr *Frame, cc *ssa.CallCommon, st *State, inst
 			f := s.evalBoolClauseAt(fr, sub, st, instr.Block(), idx)
 			s.addObl(&Obligation{Name: fmt.Sprintf("%s/assert@%s#%d.%s", fr.oblPfx, name, k, clauseNameSplit(cl, i, sub, len(subs))), Kind: "assert", Func: fr.oblPfx, Src: "at call " + name + ": " + sub.Src, Guard: st.Reach, Formula: f})
 			s.assume(Imp(st.Reach, f))
+		}
+	}
+}
+
+func rootAlloc(addr ssa.Value) *ssa.Alloc {
+	for {
+		switch a := addr.(type) {
+		case *ssa.FieldAddr:
+			addr = a.X
+		case *ssa.IndexAddr:
+			if _, isPtr := a.X.Type().Underlying().(*types.Pointer); isPtr {
+				addr = a.X
+			} else {
+				return nil
+			}
+		case *ssa.Alloc:
+			return a
+		default:
+			return nil
 		}
 	}
 }
